@@ -30,6 +30,10 @@ def project(rng):
     files["examples/demo.rs"] = "fn demo(v: Vec<i32>) -> i32 {\n    let x = v.first().unwrap();\n    *x * 6161\n}\n"
     files["pkg/build/gen.py"] = "def gen(a):\n    return a * 7171\n"
     files["pkg/util.py"] = "def util(a):\n    print(a)\n    return a * 8181\n"
+    files["pkg/skipped.py"] = "def skipped(a):\n    print(a)\n    return a * 9191\n"
+    files["vendor/lib.py"] = "def lib(a):\n    print(a)\n    return a * 9292\n"
+    # repository-level ignore patterns are relative to the project root, wherever the command is run from
+    files[".thailintignore"] = "pkg/skipped.py\nvendor/\n"
     return files
 
 
@@ -39,6 +43,8 @@ PATHTOK = re.compile(r"(?<![\w/.-])((?:/|\.\.?/)?[\w.-]+(?:/[\w.-]+)+)")
 def norm_path(p: str, root: str, cwd: str) -> str:
     q = p if os.path.isabs(p) else os.path.normpath(os.path.join(cwd, p))
     q = os.path.normpath(q)
+    if not os.path.isabs(p) and not os.path.exists(q) and os.path.exists(os.path.join(root, p)):
+        return os.path.normpath(p)  # reported relative to the project root (file-placement)
     rr = os.path.realpath(root)
     for base in (root, rr):
         if q == base or q.startswith(base + "/"):
